@@ -602,7 +602,9 @@ impl<Service: service::Service, Resource: ServiceResource> Receiver<Service, Res
         };
 
         if remove_connection {
-            self.prepare_connection_removal(index);
+            // the slot must be cleared as well, otherwise it refers to the removed connection
+            // when the creation of the new connection fails
+            self.remove_connection(index);
 
             match self.create(index, &sender_details) {
                 Ok(()) => Ok(()),
